@@ -78,7 +78,7 @@ def evaluate(case):
         return ('stuck-waiter', 'a waiter stayed blocked although every address was notified with count=inf (lost waiter)'), set()
     if st != 'ok':
         key = ([l for l in extra.get('stderr', '').splitlines() if 'ERROR' in l or 'runtime error' in l or 'VSCHED' in l or 'Assertion' in l] or [st])[0]
-        return ('crash:' + f1.normalize_diag(key), 'harness %s: %s' % (st, extra.get('stderr', '')[-900:])), set()
+        return ('crash:' + f1.normalize_diag(key), 'harness %s: %s' % (st, extra.get('stderr', '')[:900])), set()
     bad, classes = sched.check_futex(case, events)
     if case.get('be') and classes:
         classes = set(classes) | {'big_endian_runtime_paths'}
